@@ -1289,8 +1289,9 @@ def _d3_filter_form(r, fi, C, env, p_res, p_fail):
     r.ok(C + ': counter', 'len(%s) is the number of failing results' % fname, where)
     r.ok(C + ': counter start', 'no running counter', where)
     rets = lib.returns_of(fi.node)
-    fail_rets = [x for x in rets if fl.mentions(x.value, fname)]
-    tail = [x for x in rets if not fl.mentions(x.value, fname)]
+    env_x = {k: v for k, v in env.items() if k != fname}
+    fail_rets = [x for x in rets if fl.mentions(fl.expand(x.value, env_x), fname)]
+    tail = [x for x in rets if not fl.mentions(fl.expand(x.value, env_x), fname)]
     if len(fail_rets) != 1:
         raise AnalysisError('consolidate_results: expected one return of a failing result, found %d' % len(fail_rets))
     ret = fail_rets[0]
@@ -1302,7 +1303,7 @@ def _d3_filter_form(r, fi, C, env, p_res, p_fail):
             r.undecided(C + ': threshold', 'guards of the return not recognised', lib.loc(fi, ret))
         return None, None, None, tail
     conds = [a.test for a, br in chain]
-    v = ret.value
+    v = fl.expand(ret.value, env_x)
     index = v.slice if isinstance(v, ast.Subscript) and fl.name_of(v.value) == fname else None
 
     def decide(n, k, f):
